@@ -187,6 +187,10 @@ def run(chk):
     for r in res[:2]:
         chk.sample({"cfg": r["cfg"], "negotiated": r["negotiated"], "scenario": r["scenario"], "fault": r["fault"], "delivered": len(r["tunw_s"]) + len(r["tunw_c"])})
     W.report_client_model(chk, res, "C02")
+    # several clients at once (both address families, user-to-user packets, slot re-use): generated sessions through the real loop and the
+    # byte-level server model - the world runs above have one client
+    import srvcheck
+    srvcheck.model_only(chk, "C02", runs=24 if chk.tier == "thorough" else 8, nsteps=400, seed_mul=122949829)
     W.report_server_model(chk, res, "C02")
     W.report_world_model(chk, res, "C02")
     W.report_rseq(chk, "C02")
